@@ -48,13 +48,21 @@ func init() {
 		}
 		tt := m.tt
 		eq := tt.T
+		allBytes := true
 		for i := 0; i < x.Len; i++ {
 			p, ok1 := x.Cells[i].V.(*Term)
 			q, ok2 := y.Cells[i].V.(*Term)
 			if !ok1 || !ok2 || p.W != q.W {
 				return m.callPlain(fn, a, nil)
 			}
+			if p.W != 8 {
+				allBytes = false
+			}
 			eq = tt.And(eq, tt.Eq(p, q))
+		}
+		if allBytes && x.Len > 0 {
+			// byte strings: hash-aware equality (collision-freeness facts for compared hash values)
+			return m.bytesEq(m.sliceTerms(x), m.sliceTerms(y))
 		}
 		return eq
 	}
